@@ -176,7 +176,7 @@ pub fn run(args: &Args, rep: &Arc<Report>) {
         // worker count taken from the environment override (config.workers = None): values loom
         // cannot host (more than 3 workers) and unusual spellings; serial phase, no other thread
         // of the harness is running while the variable changes
-        let envs = ["1", "4", "5", "16", "100", "+2", " 3", "-1", "0", "", "two", "18446744073709551616"];
+        let envs = ["1", "4", "5", "16", "100", "300", "+2", " 3", "-1", "0", "", "two", "18446744073709551615", "18446744073709551616"];
         let mut local = Local::default();
         for e in envs {
             std::env::set_var("FLACENC_WORKERS", e);
@@ -196,5 +196,5 @@ pub fn run(args: &Args, rep: &Arc<Report>) {
         rep.merge(local);
         rep.extra("environment_override_values", json!(envs));
     }
-    rep.add_rule("breadth part (real threads, one OS schedule per encode; supplementary to the loom/stateright exploration): for every case, single-thread bytes == frame-level assembly == multi-thread bytes for workers {1,2,3,16}, each multi-thread encode repeated twice; long streams (200 blocks of 32/64 samples + tail, cheap content, workers {2,4,16,64}, 10/40 repetitions) so that the hashing queue can fill; the environment override FLACENC_WORKERS over {1,4,5,16,100,+2,\" 3\",-1,0,\"\",two,2^64, unset} with config.workers = None; non-trivial = at least two frames");
+    rep.add_rule("breadth part (real threads, one OS schedule per encode; supplementary to the loom/stateright exploration): for every case, single-thread bytes == frame-level assembly == multi-thread bytes for workers {1,2,3,16}, each multi-thread encode repeated twice; long streams (200 blocks of 32/64 samples + tail, cheap content, workers {2,4,16,64}, 10/40 repetitions) so that the hashing queue can fill; the environment override FLACENC_WORKERS over {1,4,5,16,100,300,+2,\" 3\",-1,0,\"\",two,2^64-1,2^64, unset} with config.workers = None; non-trivial = at least two frames");
 }
